@@ -234,7 +234,9 @@ prop("C07",
       ("A1", T.A1, K01, {}), ("N7", B.N7, K01, {}), ("L5", R.L5, K01, {}), ("P2", T.P2, K01, {}), ("T5", T.T5, K01, {}),
       ("S2", S.S2, K01, {}), ("S3", S.S3, K01, {}), ("R5", B.R5, ("K0", "K3"), {}),
       # which of two conflicting functions is the dependent is decided by the ranks (D1 sorts by rank): a wrong rank reverses a Data edge
-      ("K", B.C13_rules, ("K0",), {}), ("D1", B.D1, ("K0",), {})],
+      ("K", B.C13_rules, ("K0",), {}), ("D1", B.D1, ("K0",), {}),
+      # a failed function is counted off exactly once: counted twice, the countdown underflows (panic instead of the Err) when it finishes last
+      ("O3b", R.O3b, K01, {})],
      ("K0", "K1", "K3"),
      "Decides F1 (on the Err arm of the user future exactly one awaited send on the RESULT channel carries that error), F2 (from the Err arm every "
      "path to the done-send passes through the release of the done-sender), F3 (RESULT capacity monotone in node_count; its receiver is drained only "
